@@ -129,6 +129,9 @@ def boundary_case(rng, mem):
         ops.append([0, 1, t, t, payload(rng, 1)])
         if d:
             ops.append([0, 2, t + d, t + d, payload(rng, 2)])
+            if rng.random() < 0.25:
+                # a reordered picture whose pts equals the key frame's (= the segment start when that key opened it)
+                ops.append([0, 2, t, t + d, payload(rng, 2)])
         r = rng.random()
         if r < 0.45:
             # the audio path looks at the duration: one frame starts the batch, a second one (<= 100 ms later) checks again
